@@ -82,3 +82,13 @@ CLAIMED["C05"] = (
     "formats are not under contract here), block counts > 3, the certificate block (C03) and SecureBinary31.export as a whole are covered by the "
     "bounded independent-loader walk over the repository's example configurations only.",
     "DESIGN.md 7 C05")
+CLAIMED["C01"] = (
+    "Header level of the MBI round trip: Mbi_MixinIvt.create_flags equals the format's flag word for every presence pattern of the mixin "
+    "attributes and all values (type, sub-type, TrustZone type, HW-key, key store present iff non-empty, relocation flag, image version); "
+    "each get_* reader returns its field, and a lemma shows the fields are disjoint so readers invert create_flags; update_ivt writes exactly "
+    "the four words (total length, flags, CRC/cert offset — 0 for plain images —, load address) and frames every other byte; clean_ivt zeroes "
+    "exactly those words; Mbi_ExportMixinAppTrustZoneCertBlock.disassemble_image restores the application bytes before the certificate offset. "
+    "Whole-image export/parse per composition is a bounded check over the key-less compositions of the live database (known finding C01-KF1).",
+    "Trusted: A-enc, A-smt, A-struct. Not under contract: the other export mixins' collect_data/disassemble_image, relocation tables (design-time "
+    "finding #16, not checked here), TrustZone/key-store contents, certificate blocks (C03), config/CLI front ends.",
+    "DESIGN.md 7 C01")
